@@ -75,6 +75,7 @@ def run(rep, tier, seed):
     # FAT32 objects whose first cluster needs the high word of the entry, then loses it again
     for i in range(2 if tier == "quick" else 20):
         scripts.append(sessions.fat32_high_cluster_session(rng))
+    scripts += [sc_ for _, sc_ in sessions.matrix_sessions(rng, tier)]        # the standard script (with its remount) on every boundary volume
     judged = sessions.run_judged(scripts, flags=("tree",), shards=16)
     remounts = 0
     for jd in judged:
